@@ -5,14 +5,14 @@ from ..core import *
 from ..runner import Prop, Group
 from . import elicit_common as E
 
-REQ = "From SCK Require Import ElicitM ElicitRules."
+REQ = "From SCK Require Import ElicitM ElicitRules RunElicit."
 KINDS = ["unit", "skew", "ties", "zero", "straddle"]
 
 class C14(Prop):
     pid = "C14"
     sources = ["socialchoicekit/elicitation_voting.py", "socialchoicekit/elicitation_allocation.py", "socialchoicekit/elicitation_matching.py",
                "socialchoicekit/deterministic_allocation.py", "socialchoicekit/elicitation_utils.py"]
-    groups = {"thr": Group("thr", REQ, "ElicitRules.thr_case", "ElicitRules.chk_thr"),
+    groups = {"thr": Group("thr", REQ, "ElicitRules.thr_case", "RunElicit.chk_thr_dom"),
               "m2q": Group("m2q", REQ, "ElicitRules.m2q_case", "ElicitRules.chk_m2q"),
               "rootn": Group("rootn", REQ, "ElicitRules.rootn_case", "ElicitRules.chk_rootn")}
     rule = ("consistent (profile, valuation) pairs: unit-sum, skewed (x^8), tie-heavy, zero-containing, threshold-straddling (value = one ulp either side of a threshold) valuations, "
